@@ -227,10 +227,11 @@ func (v2Addr) String() string  { return "192.0.2.1:1234" }
 
 // scripted net.Conn
 type v2Conn struct {
-	r      *v2Runner
-	script []v2Item
-	armed  bool
-	closed int
+	r         *v2Runner
+	script    []v2Item
+	armed     bool
+	closed    int
+	delivered int // bytes handed out by Read so far
 }
 
 func (c *v2Conn) Read(p []byte) (int, error) {
@@ -241,6 +242,7 @@ func (c *v2Conn) Read(p []byte) (int, error) {
 	switch it.kind {
 	case 0:
 		n := copy(p, it.data)
+		c.delivered += n
 		it.data = it.data[n:]
 		if len(it.data) == 0 {
 			c.script = c.script[1:]
@@ -303,7 +305,7 @@ func (c *v2Core) Write(e zapcore.Entry, fs []zapcore.Field) error {
 		case errors.Is(err, v2ErrScripted):
 			why = "DMatchErr"
 		}
-		c.r.tr = append(c.r.tr, v2Evt{kind: "drop", inv: c.lvl.inv, depth: c.lvl.depth, why: why, armed: c.r.conn.armed})
+		c.r.tr = append(c.r.tr, v2Evt{kind: "drop", inv: c.lvl.inv, depth: c.lvl.depth, why: why, armed: c.r.conn.armed, avail: c.r.conn.delivered, rs: c.lvl.rs})
 	case "handling connection":
 		c.r.retErr = true
 	}
@@ -608,6 +610,24 @@ func v2Oracle(rs []v2R, script []v2Item, r *v2Runner) v2Fails {
 			if ended == "" {
 				ended = "drop"
 			}
+			if e.why != "DMatchErr" {
+				// matching goes on (and can only be given up by timeout, full buffer or a network error)
+				// while some route above the last one that ran is still undecided
+				b := v2Slice(stream, consumed, e.avail)
+				last, ok := lastRun[e.inv]
+				if !ok {
+					last = -1
+				}
+				und := false
+				for i := last + 1; i < len(e.rs); i++ {
+					if v2SpecAny(e.rs[i].mss, b) == v2More {
+						und = true
+					}
+				}
+				if !und {
+					fails.add("C02:router:dropped-although-every-route-decided", fmt.Sprintf("%s (%s): no route above %d is undecided on the %d available bytes, the fallback should have run", where, e.why, last, len(b)))
+				}
+			}
 		case "herr":
 			if ended == "" {
 				ended = "herr"
@@ -670,6 +690,7 @@ func v2MatcherAlphabet() [][][]v2M {
 		{{{kind: 2, sets: [][]v2M{{v2T(3, v2No)}}}}},                   // not: Yes once 3 bytes are there
 		{{v2T(3, v2No)}, {v2T(1, v2Yes)}},                              // two sets: first undecided longer than the second
 		{{v2T(1, v2Yes), {kind: 1, k: 2, c: 0x63, y: v2Yes, n: v2No}}}, // AND with a content test on the third byte
+		{{{kind: 1, k: 0, c: 'b', y: v2Yes, n: v2No}}},                   // the first available byte is 'b' (depends on what earlier handlers consumed)
 		{}, // no matcher: matches everything
 	}
 }
@@ -834,6 +855,43 @@ func v2BigConfigs(g *vRng) (out []struct {
 	return
 }
 
+// hand-written scenarios, each aimed at one way of getting Compile's state machine wrong
+func v2Corpus() (out []struct {
+	rs []v2R
+	sc []v2Item
+}) {
+	s := []byte("abcdef")
+	ch := func(a, b int) v2Item { return v2Item{kind: 0, data: s[a:b]} }
+	sched := [][]v2Item{{ch(0, 1), ch(1, 3), ch(3, 6)}, {ch(0, 1), ch(1, 2), ch(2, 3), ch(3, 6)}, {ch(0, 6)}, {ch(0, 2), ch(2, 6)}}
+	term := []v2H{{kind: 0}}
+	firstIs := func(c byte) [][]v2M { return [][]v2M{{{kind: 1, k: 0, c: c, y: v2Yes, n: v2No}}} }
+	one := func(m v2M) [][]v2M { return [][]v2M{{m}} }
+	cfgs := [][]v2R{
+		// a cached "not matched" from before an earlier route consumed bytes must not be honoured afterwards
+		{{mss: one(v2T(3, v2Yes)), hs: []v2H{{kind: 1, k: 1}}}, {mss: firstIs('b'), hs: term}, {mss: one(v2T(5, v2Yes)), hs: term}},
+		{{mss: one(v2T(3, v2Yes)), hs: []v2H{{kind: 3}, {kind: 1, k: 2}}}, {mss: firstIs('c'), hs: term}, {mss: one(v2T(6, v2No)), hs: term}},
+		// an undecided route below a matched one must not keep the loop going
+		{{mss: one(v2T(5, v2Yes)), hs: term}, {mss: one(v2T(1, v2Yes)), hs: nil}, {mss: one(v2T(1, v2No)), hs: term}},
+		// a later route may match while an earlier one is still undecided
+		{{mss: one(v2T(5, v2Yes)), hs: term}, {mss: one(v2T(1, v2No)), hs: term}, {mss: one(v2T(2, v2Yes)), hs: term}},
+		// the connection handed to the last handler (after Wrap and a partial read) is the one matching goes on with
+		{{mss: one(v2T(3, v2Yes)), hs: []v2H{{kind: 3}, {kind: 1, k: 1}}}, {mss: firstIs('b'), hs: []v2H{{kind: 1, k: 2}}}, {mss: firstIs('d'), hs: term}},
+		// subroute: its fallback is the rest of the outer chain; outer matching then goes on
+		{{mss: nil, hs: []v2H{{kind: 4, sub: []v2R{{mss: one(v2T(2, v2No)), hs: term}}}, {kind: 1, k: 1}}}, {mss: firstIs('b'), hs: term}},
+		// a matcher set that never decides with a second set that does
+		{{mss: [][]v2M{{v2T(7, v2Yes)}, {v2T(2, v2Yes)}}, hs: []v2H{{kind: 1, k: 2}}}, {mss: [][]v2M{{{kind: 2, sets: [][]v2M{{v2T(1, v2Yes)}}}}}, hs: term}},
+	}
+	for _, rs := range cfgs {
+		for _, sc := range sched {
+			out = append(out, struct {
+				rs []v2R
+				sc []v2Item
+			}{rs, sc})
+		}
+	}
+	return
+}
+
 // ---------------------------------------------------------------- the test
 
 func TestVerifC02Router(t *testing.T) {
@@ -883,6 +941,11 @@ func TestVerifC02Router(t *testing.T) {
 			coq := fmt.Sprintf("RC %s %s %s %s %s", v2RoutesCoq(c.rs), v2ScriptCoq(c.sc), r.coqTrace(), cZ(closed), cBool(r.panicked))
 			out.Case(coq, c.cls, nt, nil)
 		}
+	}
+
+	// 0. corpus of hand-written scenarios
+	for _, c := range v2Corpus() {
+		do(cfg{c.rs, c.sc, "corpus"}, true)
 	}
 
 	// 1. exhaustive small scope: <= 3 routes over the alphabets, every schedule
